@@ -2,6 +2,7 @@ import MlsVerif.Proofs.GroupSecrecy
 import MlsVerif.Proofs.GroupGhost
 import MlsVerif.Proofs.GroupClosure
 import MlsVerif.Proofs.GroupExample
+import MlsVerif.Proofs.GroupInitChain
 /-!
 # C02 (composed) — secrecy against removed members and outsiders, over whole histories
 
@@ -23,6 +24,16 @@ later.  Every path secret and commit secret of these commits is hidden, and — 
 What the key stamps mean: holding a stamp = holding the private key.  Stamps that are meant to be new are
 assumed new (`CommitOk` for the tree, `NoReintro K` for the party under consideration) — "fresh keys are
 fresh".  `NoReintro` also expresses "the removed member is not re-added with keys it already holds".
+
+External commits (`GroupWorld.externalCommit`).  Histories (`Reachable`, `Later`, `ReachableF`) may contain them.
+The `ExternalInit` shows in the transcript as the KEM output `(Key.ext e, Sec.ext n)` — towards the external key
+of the epoch whose epoch secret is `e`, carrying the KEM shared secret `ext n`, the init secret of the new epoch —
+and the key generation `(e, Key.ext e)`: whoever knows the epoch secret derives the external private key.  So
+exactly the joiner (who chose the KEM randomness) and the parties that know the old epoch secret know the new init
+secret; it gives no forward secrecy — `Closed` treats every external key as known — and the new epoch secret is
+protected against former members by the commit secret of the (mandatory) update path, against parties that never
+were in the group by the init-secret chain (`init_chain_secrecy`).  The chain is CUT by an external commit: the
+joiner learns nothing about the epoch secrets up to the epoch it ends (`external_committer_learns_nothing_earlier`).
 
 The removed member is given its *last* state (all private keys in its slots, its epoch and init secret) and
 the transcripts of the removing commit and of all later ones.  Path secrets it decrypted earlier are not part
@@ -193,22 +204,26 @@ theorem welcome_outsider (A : Sec → Bool) {K : List Key} {S : List Sec} {tr : 
       intro k s' hm hk
       have hm' : (k, s') ∈ Transcript.seals { pathSeals := [], welcome := tr.welcome } := by
         simpa [sealsOfAll] using hm
-      rcases mem_transcript_seals hm' with ⟨ps, hps, _⟩ | ⟨ws, hws, rfl, _⟩
+      rcases mem_transcript_seals hm' with ⟨ps, hps, _⟩ | ⟨ws, hws, rfl, _⟩ | ⟨_, he, _⟩
       · cases hps
-      · exact absurd hk (hK ws hws))
+      · exact absurd hk (hK ws hws)
+      · cases he)
     (by intro s' k hm; cases hm) hd
   simp only at this
   rw [hs] at this; cases this
 
-/-- **The Welcome alone.**  Every epoch secret of a reachable group depends on the creator's initial randomness
-(`genesis`, through the chain of init secrets).  A party that holds none of the init keys a Welcome is sealed
-to, and whose own secrets do not depend on `genesis` (it never was in the group), cannot derive the joiner
-secret (= the new epoch secret) from the Welcome of any commit — with or without a path. -/
+/-- **The Welcome alone.**  Every epoch secret of a reachable group depends on a root of an init-secret chain
+(`isRoot`): the creator's initial randomness `genesis` or — since histories may contain external commits, each of
+which starts a new chain — the KEM randomness `ext n` of an external committer.  A party that holds none of the
+init keys a Welcome is sealed to, and whose own secrets depend on no such root (it never was in the group and
+never made an external commit), cannot derive the joiner secret (= the new epoch secret) from the Welcome of any
+commit — with or without a path.  (With `isGenesis` in place of `isRoot` the statement is false once external
+commits exist: the external committer knows its epoch's init secret without knowing `genesis`.) -/
 theorem welcome_alone {w w' : GroupWorld} {tr : Transcript} {sender : Nat} {e : Edits}
     {newLeaf : Option Leaf} {fresh : Nat} {psk : Sec} {ctx : Nat} {deliverTo : List Nat}
     (hr : Reachable w) (h : w.commit sender e newLeaf fresh psk ctx deliverTo = .ok (w', tr))
     {K : List Key} {S : List Sec} (hK : ∀ L ∈ e.adds, Key.init L.hpke ∉ K)
-    (hS : ∀ s ∈ S, hidden isGenesis s = false) :
+    (hS : ∀ s ∈ S, hidden isRoot s = false) :
     ∀ ws ∈ tr.welcome,
       ¬ Derivable K S (sealsOfAll [{ pathSeals := [], welcome := tr.welcome }]) [] (.sec ws.joiner) := by
   intro ws hws
@@ -217,7 +232,7 @@ theorem welcome_alone {w w' : GroupWorld} {tr : Transcript} {sender : Nat} {e : 
   have hgen := reachable_geninv hr
   obtain ⟨cm, added, t1, hpre, h'⟩ := commit_inv h
   obtain ⟨hcm1, _, _⟩ := sender?_spec hpre.hsender
-  have hjoin : hidden isGenesis ws.joiner = true ∧ ∀ ws' ∈ tr.welcome, ∃ L ∈ e.adds, ws'.initKey = L.hpke := by
+  have hjoin : hidden isRoot ws.joiner = true ∧ ∀ ws' ∈ tr.welcome, ∃ L ∈ e.adds, ws'.initKey = L.hpke := by
     cases newLeaf with
     | some nl =>
       obtain ⟨o, ms, js, hc⟩ := commitPath_inv h'
@@ -233,7 +248,7 @@ theorem welcome_alone {w w' : GroupWorld} {tr : Transcript} {sender : Nat} {e : 
       refine ⟨by simp only [welcomeFor, hidden, hgen cm hcm1, Bool.true_or], fun ws' hws' => ?_⟩
       obtain ⟨self', L', hL', rfl⟩ := mem_welcome hws'
       exact ⟨L', hL', rfl⟩
-  refine welcome_outsider isGenesis ?_ hS _ hjoin.1
+  refine welcome_outsider isRoot ?_ hS _ hjoin.1
   intro ws' hws' hk
   obtain ⟨L, hL, heq⟩ := hjoin.2 ws' hws'
   exact hK L hL (heq ▸ hk)
@@ -266,6 +281,226 @@ theorem welcome_contents {w w' : GroupWorld} {tr : Transcript} {sender : Nat} {e
     rcases nopath_member_cases hi hpre hc hm with ⟨_, h1⟩ | ⟨_, h1⟩
     · omega
     · exact h1
+
+/-! ### external commits -/
+
+/-- **Ciphertexts of an external commit go only to entitled keys**: to the key stored at a node of the *new*
+tree (path secrets), or — the KEM output of the `ExternalInit`, carrying the init secret `ext n` of the new epoch —
+to the external key of the epoch secret of a current member of the old epoch. -/
+theorem ciphertext_recipients_ext {w w' : GroupWorld} {tr : Transcript} {gi : Nat} {remove : Option Nat}
+    {L0 nl : Leaf} {fresh : Nat} {psk : Sec} {ctx : Nat} {deliverTo : List Nat}
+    (h : w.externalCommit gi remove L0 nl fresh psk ctx deliverTo = .ok (w', tr)) :
+    ∀ k s, (k, s) ∈ tr.seals →
+      (∃ st, k = .node st ∧ st ∈ keyStamps w'.tree) ∨
+      (∃ gm ∈ w.members, gm.epoch = w.epoch ∧ k = .ext gm.secret ∧ s = .ext w.epoch) :=
+  seals_recipients_ext h
+
+/-- **Who knows the new init secret (b): every member of the old epoch.**  From its epoch secret alone and the
+transcript of the external commit, any current member of the old epoch — also the one whose leaf the commit
+removes — derives the KEM shared secret `ext n`.  (The other one who knows it is the joiner, who chose it.) -/
+theorem external_init_known_to_old_members {w w' : GroupWorld} {tr : Transcript} {gi : Nat}
+    {remove : Option Nat} {L0 nl : Leaf} {fresh : Nat} {psk : Sec} {ctx : Nat} {deliverTo : List Nat}
+    (hr : Reachable w) (h : w.externalCommit gi remove L0 nl fresh psk ctx deliverTo = .ok (w', tr)) :
+    ∀ m ∈ w.members, m.epoch = w.epoch →
+      Derivable [] [m.secret] tr.seals tr.gens (.sec (.ext w.epoch)) := by
+  intro m hm hcur
+  obtain ⟨gm, hgm, hgme, hx⟩ := ext_init_seal h
+  have hs : m.secret = gm.secret := (reachable_ginv hr).agree m hm gm hgm (by rw [hcur, hgme])
+  have hxs : (Key.ext m.secret, Sec.ext w.epoch) ∈ tr.seals := by
+    unfold Transcript.seals; rw [hx, hs]; simp
+  have hxg : (m.secret, Key.ext m.secret) ∈ tr.gens := by
+    unfold Transcript.gens; rw [hx, hs]; simp
+  exact .opens hxs (.gen hxg (.sec0 (by simp)))
+
+/-- The party whose leaf an external commit removes holds, with its old state, no key of the new tree — also
+in the re-sync case, where the new leaf of the SAME party is put on the very position the Remove blanked. -/
+theorem removed_by_external_commit_holds_no_key {w w' : GroupWorld} {tr : Transcript} {gi : Nat}
+    {remove : Option Nat} {L0 nl : Leaf} {fresh : Nat} {psk : Sec} {ctx : Nat} {deliverTo : List Nat}
+    (hr : Reachable w) (hok : ExtOk w remove L0 nl fresh) {rm : Member}
+    (hrm : rm ∈ w.members) (hcur : rm.epoch = w.epoch) (hrem : remove = some rm.priv.self)
+    (hnr : NoReintroExt (keysOf rm.priv) L0 nl fresh)
+    (h : w.externalCommit gi remove L0 nl fresh psk ctx deliverTo = .ok (w', tr)) :
+    ∀ st, Key.node st ∈ keysOf rm.priv → st ∉ keyStamps w'.tree :=
+  disj_removed_ext (reachable_ginv hr) hok hrm hcur hrem hnr h
+
+/-- **Re-sync: the old state gives nothing, for all later epochs.**  `w0` reachable; `rm` a current member of
+`w0`; an external commit removes its leaf (`w0 → w1`, transcript `tr1`) — in a re-sync the external committer is
+the same party with a new leaf node, but "removed" here is about the OLD STATE: the private keys in `rm`'s slots,
+its epoch secret and init secret.  Then any number of further commits and external commits (`Later`), none of
+which brings back a private key of the old state (`NoReintroExt` / `NoReintro`: the new leaf keys are new).  From
+the old state and all these transcripts one derives
+
+* no path secret and no commit secret of any of these commits,
+* no path secret inside any update-path node of these transcripts,
+* not the epoch secret nor the init secret of any followed party that is past epoch `w0.epoch` in the final
+  world — in particular not those of the re-synced member itself.
+
+(The old state DOES give the KEM shared secret `ext n`, `external_init_known_to_old_members`: what keeps it out
+is the commit secret of the external commit's update path.) -/
+theorem resync_old_state_forward_secrecy {w0 w1 w2 : GroupWorld} {tr1 : Transcript} {T : List Transcript}
+    {gi : Nat} {remove : Option Nat} {L0 nl : Leaf} {fresh : Nat} {psk : Sec} {ctx : Nat}
+    {deliverTo : List Nat} {rm : Member} (hr : Reachable w0) (hrm : rm ∈ w0.members)
+    (hcur : rm.epoch = w0.epoch) (hrem : remove = some rm.priv.self) (hok : ExtOk w0 remove L0 nl fresh)
+    (hnr : NoReintroExt (keysOf rm.priv) L0 nl fresh)
+    (hc : w0.externalCommit gi remove L0 nl fresh psk ctx deliverTo = .ok (w1, tr1))
+    (hl : Later (keysOf rm.priv) w1 T w2) :
+    (∀ n i, w0.epoch ≤ n → ¬ Derivable (keysOf rm.priv) [rm.secret, rm.initSecret]
+        (sealsOfAll (T ++ [tr1])) (gensOfAll (T ++ [tr1])) (.sec (pathN i (.fresh n)))) ∧
+    (∀ tr ∈ T ++ [tr1], ∀ ps ∈ tr.pathSeals, ¬ Derivable (keysOf rm.priv) [rm.secret, rm.initSecret]
+        (sealsOfAll (T ++ [tr1])) (gensOfAll (T ++ [tr1])) (.sec ps.secret)) ∧
+    (∀ m ∈ w2.members, w0.epoch < m.epoch →
+      ¬ Derivable (keysOf rm.priv) [rm.secret, rm.initSecret]
+        (sealsOfAll (T ++ [tr1])) (gensOfAll (T ++ [tr1])) (.sec m.secret) ∧
+      ¬ Derivable (keysOf rm.priv) [rm.secret, rm.initSecret]
+        (sealsOfAll (T ++ [tr1])) (gensOfAll (T ++ [tr1])) (.sec m.initSecret)) := by
+  have hi := reachable_ginv hr
+  have hd := disj_removed_ext hi hok hrm hcur hrem hnr hc
+  have h0 := reachable_sinv hr rm hrm
+  exact shut_conclusions (shut_later (shut_first_ext hi hok hnr hc hd) hl) (by
+    intro s hs'
+    simp only [List.mem_cons, List.mem_nil_iff, or_false] at hs'
+    rcases hs' with rfl | rfl <;> exact h0)
+
+/-- … also when the party at the removed leaf had missed commits (its old state is that of an earlier epoch), in
+histories with global freshness of new keys (`ReachableF`, which may contain external commits). -/
+theorem resync_old_ghost_forward_secrecy {w0 w1 w2 : GroupWorld} {tr1 : Transcript} {T : List Transcript}
+    {gi : Nat} {remove : Option Nat} {L0 nl : Leaf} {fresh : Nat} {psk : Sec} {ctx : Nat}
+    {deliverTo : List Nat} {rm : Member} (hr : ReachableF w0) (hrm : rm ∈ w0.members)
+    (hrem : remove = some rm.priv.self) (hok : ExtOk w0 remove L0 nl fresh)
+    (hnr : NoReintroExt (keysOf rm.priv) L0 nl fresh)
+    (hc : w0.externalCommit gi remove L0 nl fresh psk ctx deliverTo = .ok (w1, tr1))
+    (hl : Later (keysOf rm.priv) w1 T w2) :
+    (∀ n i, w0.epoch ≤ n → ¬ Derivable (keysOf rm.priv) [rm.secret, rm.initSecret]
+        (sealsOfAll (T ++ [tr1])) (gensOfAll (T ++ [tr1])) (.sec (pathN i (.fresh n)))) ∧
+    (∀ tr ∈ T ++ [tr1], ∀ ps ∈ tr.pathSeals, ¬ Derivable (keysOf rm.priv) [rm.secret, rm.initSecret]
+        (sealsOfAll (T ++ [tr1])) (gensOfAll (T ++ [tr1])) (.sec ps.secret)) ∧
+    (∀ m ∈ w2.members, w0.epoch < m.epoch →
+      ¬ Derivable (keysOf rm.priv) [rm.secret, rm.initSecret]
+        (sealsOfAll (T ++ [tr1])) (gensOfAll (T ++ [tr1])) (.sec m.secret) ∧
+      ¬ Derivable (keysOf rm.priv) [rm.secret, rm.initSecret]
+        (sealsOfAll (T ++ [tr1])) (gensOfAll (T ++ [tr1])) (.sec m.initSecret)) := by
+  have hi := reachable_ginv hr.reachable
+  have hd := disj_removed_any_ext hi hok (reachableF_onPath hr rm hrm) hrem hnr hc
+  have h0 := reachable_sinv hr.reachable rm hrm
+  exact shut_conclusions (shut_later (shut_first_ext hi hok hnr hc hd) hl) (by
+    intro s hs'
+    simp only [List.mem_cons, List.mem_nil_iff, or_false] at hs'
+    rcases hs' with rfl | rfl <;> exact h0)
+
+/-- **Any outside party, from an external commit on.**  An arbitrary party `(K, S)` — e.g. a former member, or
+somebody who holds the GroupInfo but is NOT the external committer: after the external commit `w0 → w1` it holds
+no key of the tree of `w1`, none of the commits from `w0` on brings in a key of `K`, and its secrets `S` do not
+depend on the random values drawn from epoch `w0.epoch` on (it may know the old epoch secret, hence the KEM shared
+secret).  Then it derives no path secret, no commit secret, no epoch / init secret of an epoch after
+`w0.epoch`. -/
+theorem outsider_forward_secrecy_ext {w0 w1 w2 : GroupWorld} {tr1 : Transcript} {T : List Transcript}
+    {gi : Nat} {remove : Option Nat} {L0 nl : Leaf} {fresh : Nat} {psk : Sec} {ctx : Nat}
+    {deliverTo : List Nat} {K : List Key} {S : List Sec} (hr : Reachable w0)
+    (hok : ExtOk w0 remove L0 nl fresh) (hnr : NoReintroExt K L0 nl fresh)
+    (hc : w0.externalCommit gi remove L0 nl fresh psk ctx deliverTo = .ok (w1, tr1))
+    (hd : ∀ st, Key.node st ∈ K → st ∉ keyStamps w1.tree)
+    (hS : ∀ s ∈ S, hidden (freshFrom w0.epoch) s = false)
+    (hl : Later K w1 T w2) :
+    (∀ s, hidden (freshFrom w0.epoch) s = true →
+      ¬ Derivable K S (sealsOfAll (T ++ [tr1])) (gensOfAll (T ++ [tr1])) (.sec s)) ∧
+    (∀ m ∈ w2.members, w0.epoch < m.epoch → hidden (freshFrom w0.epoch) m.secret = true ∧
+      hidden (freshFrom w0.epoch) m.initSecret = true) ∧
+    (∀ st, Key.node st ∈ K → st ∉ keyStamps w2.tree) := by
+  have hs := shut_later (shut_first_ext (reachable_ginv hr) hok hnr hc hd) hl
+  exact ⟨closed_secrecy hs.closed hS, fun m hm hlt => ⟨hs.hinv m hm hlt, hs.hinv m hm hlt⟩, hs.disj⟩
+
+/-- the same for the external commit alone: the party at the removed leaf derives, from its old state and the
+transcript, no path secret of the commit, not its commit secret, not the new epoch secret -/
+theorem removed_by_external_commit_cannot_derive {w w' : GroupWorld} {tr : Transcript} {gi : Nat}
+    {remove : Option Nat} {L0 nl : Leaf} {fresh : Nat} {psk : Sec} {ctx : Nat} {deliverTo : List Nat}
+    {rm : Member} (hr : Reachable w) (hrm : rm ∈ w.members) (hcur : rm.epoch = w.epoch)
+    (hrem : remove = some rm.priv.self) (hok : ExtOk w remove L0 nl fresh)
+    (hnr : NoReintroExt (keysOf rm.priv) L0 nl fresh)
+    (hc : w.externalCommit gi remove L0 nl fresh psk ctx deliverTo = .ok (w', tr)) :
+    (∀ ps ∈ tr.pathSeals, ¬ Derivable (keysOf rm.priv) [rm.secret, rm.initSecret]
+        (sealsOfAll [tr]) (gensOfAll [tr]) (.sec ps.secret)) ∧
+    (∀ i, ¬ Derivable (keysOf rm.priv) [rm.secret, rm.initSecret]
+        (sealsOfAll [tr]) (gensOfAll [tr]) (.sec (pathN i (.fresh w.epoch)))) ∧
+    (∀ m ∈ w'.members, m.epoch = w'.epoch →
+      ¬ Derivable (keysOf rm.priv) [rm.secret, rm.initSecret] (sealsOfAll [tr]) (gensOfAll [tr]) (.sec m.secret)) := by
+  obtain ⟨h1, h2, h3⟩ := resync_old_state_forward_secrecy hr hrm hcur hrem hok hnr hc (.refl w')
+  have he := (ext_cases (reachable_ginv hr) hc).1
+  exact ⟨fun ps hps => h2 tr (by simp) ps hps, fun i => h1 _ i (Nat.le_refl _),
+    fun m hm hm' => (h3 m hm (by omega)).1⟩
+
+/-! ### the init-secret chain: parties that never were members, and what an external committer learns -/
+
+/-- **Secrecy through the init-secret chain** (`Proofs/GroupInitChain.lean`).  `History w T`: `w` is reachable and
+`T` lists the transcripts of ALL its commits and external commits.  `rootBefore N` selects the roots of the
+init-secret chains started before epoch `N`: the creator's randomness `genesis` and the KEM randomness `ext n`,
+`n < N`, of the external commits.  A party that holds only node keys — ANY node keys, e.g. every key of every
+tree — and whose own secrets depend on no such root derives no secret that does. -/
+theorem init_chain_secrecy {w : GroupWorld} {T : List Transcript} (h : History w T) (N : Nat)
+    {K : List Key} {S : List Sec} (hK : ∀ k ∈ K, ∃ st, k = .node st)
+    (hS : ∀ s ∈ S, hidden (rootBefore N) s = false) :
+    ∀ s, hidden (rootBefore N) s = true → ¬ Derivable K S (sealsOfAll T) (gensOfAll T) (.sec s) :=
+  initchain_secrecy h N hK hS
+
+/-- every followed party's epoch secret (of the epoch `e` it is in) depends on a root of a chain started before
+`e`, in every reachable world -/
+theorem epoch_secrets_depend_on_a_root {w : GroupWorld} (h : Reachable w) :
+    ∀ m ∈ w.members, hidden (rootBefore m.epoch) m.secret = true :=
+  reachable_rootinv h
+
+/-- **A party that never was a member and never made an external commit** (it holds no root: neither `genesis`
+nor the KEM randomness of an external commit; it may hold any node keys, any PSKs, any path secrets) derives no
+epoch secret and no init secret of any followed party, from all transcripts of the history — whether the group
+was extended by Welcomes or by external commits.  In particular: somebody who merely holds a GroupInfo, but is
+neither a member of the old epoch nor the external committer, does not get the new epoch's secrets. -/
+theorem never_member_learns_no_epoch_secret {w : GroupWorld} {T : List Transcript} (h : History w T)
+    {K : List Key} {S : List Sec} (hK : ∀ k ∈ K, ∃ st, k = .node st)
+    (hS : ∀ s ∈ S, hidden (rootBefore w.epoch) s = false) :
+    ∀ m ∈ w.members, ¬ Derivable K S (sealsOfAll T) (gensOfAll T) (.sec m.secret) ∧
+      ¬ Derivable K S (sealsOfAll T) (gensOfAll T) (.sec m.initSecret) := by
+  intro m hm
+  have hi := reachable_ginv h.reachable
+  have hroot := rootBefore_mono (hi.epochs m hm) _ (reachable_rootinv h.reachable m hm)
+  exact ⟨initchain_secrecy h _ hK hS _ hroot, initchain_secrecy h _ hK hS _ hroot⟩
+
+/-- **The external committer is entitled from the epoch it creates on, not before.**  `w` with all its
+transcripts `T`; an external commit `w → w'` (transcript `tr`).  Take any party `j` of the new world — in
+particular the external committer — with everything the joiner has: the private keys in its slots, the KEM shared
+secret `ext n` it chose, its random path secret `fresh n` (hence the whole chain and the commit secret), the PSK,
+and the new epoch secret.  From this and ALL transcripts up to and including its own commit it derives neither the
+epoch secret nor the init secret of any followed party of the old world — not of the members of the epoch it
+ended, not of any earlier epoch: the init-secret chain is cut. -/
+theorem external_committer_learns_nothing_earlier {w w' : GroupWorld} {T : List Transcript} {tr : Transcript}
+    {gi : Nat} {remove : Option Nat} {L0 nl : Leaf} {fresh : Nat} {psk : Sec} {ctx : Nat}
+    {deliverTo : List Nat} (hh : History w T) (hok : ExtOk w remove L0 nl fresh)
+    (h : w.externalCommit gi remove L0 nl fresh psk ctx deliverTo = .ok (w', tr))
+    {j : Member} (hj : j ∈ w'.members) (hje : j.epoch = w'.epoch) :
+    ∀ m ∈ w.members,
+      ¬ Derivable (keysOf j.priv) [.ext w.epoch, .fresh w.epoch, psk, j.secret]
+          (sealsOfAll (tr :: T)) (gensOfAll (tr :: T)) (.sec m.secret) ∧
+      ¬ Derivable (keysOf j.priv) [.ext w.epoch, .fresh w.epoch, psk, j.secret]
+          (sealsOfAll (tr :: T)) (gensOfAll (tr :: T)) (.sec m.initSecret) := by
+  intro m hm
+  have hi := reachable_ginv hh.reachable
+  obtain ⟨he, hpsk, u, hall⟩ := ext_cases hi h
+  have hpskh : hidden (rootBefore w.epoch) psk = false := by
+    cases psk <;> simp_all [Sec.isPskInput, hidden, rootBefore]
+  have hjs : hidden (rootBefore w.epoch) j.secret = false := by
+    rcases hall j hj with ⟨_, hle⟩ | ⟨_, hsec⟩
+    · omega
+    · rw [hsec]
+      simp [hidden, rootBefore, hidden_pathN, hpskh]
+  have hS : ∀ s ∈ [Sec.ext w.epoch, Sec.fresh w.epoch, psk, j.secret],
+      hidden (rootBefore w.epoch) s = false := by
+    intro s hs
+    simp only [List.mem_cons, List.mem_nil_iff, or_false] at hs
+    rcases hs with rfl | rfl | rfl | rfl
+    · simp [hidden, rootBefore]
+    · rfl
+    · exact hpskh
+    · exact hjs
+  have hroot := rootBefore_mono (hi.epochs m hm) _ (reachable_rootinv hh.reachable m hm)
+  have hh' : History w' (tr :: T) := .ext hh hok h
+  exact ⟨initchain_secrecy hh' _ (keysOf_node _) hS _ hroot, initchain_secrecy hh' _ (keysOf_node _) hS _ hroot⟩
 
 /-! ### the executable closure is sound -/
 
@@ -392,5 +627,101 @@ theorem removed_member_derives_without_path :
   closure_sound _ _ _ _ (subterms (E w4')) 3 _ (by decide +kernel)
 
 -- … while with the path (same proposals, same committer) it cannot: `example_secrecy`.
+
+/-! ### Non-vacuity: external commits (`Proofs/GroupExample.lean`)
+
+Epoch 5 → 6 (`trx6`): party 4 joins by an external commit built from member 0's GroupInfo.  Epoch 6 → 7 (`trx7`):
+member 2 has lost its state and re-syncs — an external commit with the Remove of its own old leaf 2.  `m2x`: member
+2's OLD state in epoch 6; `j4`: party 4 as it is in epoch 6. -/
+
+-- the old state of member 2: leaf key, the keys of node 5 and of the root; a current member of epoch 6, and the
+-- re-sync removes exactly its leaf
+example : keysOf m2x.priv = [.node 502, .node 4000, .node 7001] ∧ m2x ∈ wx6.members ∧ m2x.epoch = wx6.epoch ∧
+    m2x.secret = E wx6 ∧ (some 2 : Option Nat) = some m2x.priv.self ∧
+    NoReintroExt (keysOf m2x.priv) L0y nly 8000 := by decide +kernel
+
+/-- the re-sync theorem on the example: from member 2's old state one derives neither the new epoch secret nor a
+path secret of the re-sync commit -/
+theorem example_resync_secrecy :
+    ¬ Derivable (keysOf m2x.priv) [m2x.secret, m2x.initSecret] (sealsOfAll [trx7]) (gensOfAll [trx7])
+        (.sec (E wx7)) ∧
+    ¬ Derivable (keysOf m2x.priv) [m2x.secret, m2x.initSecret] (sealsOfAll [trx7]) (gensOfAll [trx7])
+        (.sec (.fresh 6)) := by
+  obtain ⟨_, h2, h3⟩ := removed_by_external_commit_cannot_derive reachx6 (rm := m2x) (by decide +kernel)
+    (by decide +kernel) (by decide +kernel) okx7 (by decide +kernel) cx7
+  have he : wx6.epoch = 6 := by decide +kernel
+  refine ⟨?_, he ▸ h2 0⟩
+  have hm : m2y ∈ wx7.members := by decide +kernel
+  have := h3 m2y hm (by decide +kernel)
+  rwa [show m2y.secret = E wx7 by decide +kernel] at this
+
+/-- what the old state does give, by saturation: the KEM shared secret `ext 6` (it knows the epoch secret of epoch
+6, derives the external key, opens the KEM output) — but no path secret, no new key, not the new epoch secret -/
+def satOld : List Fact :=
+  saturate (keysOf m2x.priv) [m2x.secret] (sealsOfAll [trx7]) (gensOfAll [trx7])
+    (subterms (E wx7) ++ [.path (.fresh 6)]) 8
+
+example : satOld.contains (.sec (.ext 6)) = true ∧ satOld.contains (.key (.ext (E wx6))) = true ∧
+    satOld.contains (.sec (.fresh 6)) = false ∧ satOld.contains (.sec (.path (.fresh 6))) = false ∧
+    satOld.contains (.sec (E wx7)) = false ∧ satOld.contains (.key (.node 8000)) = false := by decide +kernel
+
+/-- the general statement (b) on the example: from the epoch secret of epoch 6 alone -/
+example : Derivable [] [E wx6] trx7.seals trx7.gens (.sec (.ext 6)) := by
+  have := external_init_known_to_old_members reachx6 cx7 m2x (by decide +kernel) (by decide +kernel)
+  rwa [show m2x.secret = E wx6 by decide +kernel, show wx6.epoch = 6 by decide +kernel] at this
+
+/-- in contrast member 0, from its state in epoch 5 and the transcript of party 4's external commit: it derives
+the external key of epoch 5, decapsulates `ext 5`, opens the path secret sealed to its leaf key and computes the
+epoch secret of epoch 6 -/
+def m0 : Member := (party w5 0).getD ⟨0, ⟨0, []⟩, 0, .zero⟩
+
+theorem member0_follows_external_commit :
+    Derivable (keysOf m0.priv) [m0.secret] (sealsOfAll [trx6]) (gensOfAll [trx6]) (.sec (E wx6)) :=
+  closure_sound _ _ _ _ (subterms (E wx6)) 6 _ (by decide +kernel)
+
+/-- … and the external committer itself, from its KEM randomness and its random path secret alone -/
+theorem joiner_derives_new_epoch : Derivable [] [.ext 5, .fresh 5] (sealsOfAll [trx6]) (gensOfAll [trx6])
+    (.sec (E wx6)) :=
+  closure_sound _ _ _ _ (subterms (E wx6)) 6 _ (by decide +kernel)
+
+/-- **the chain is cut**: party 4, with everything it has after its external commit and ALL transcripts since the
+creation of the group, derives neither the epoch secret of epoch 5 (the one it ended) nor its init secret, nor
+those of any earlier epoch held by a followed party (member 1 in epoch 3, member 3 in epoch 2) -/
+theorem example_joiner_learns_nothing_earlier :
+    ∀ m ∈ w5.members,
+      ¬ Derivable (keysOf j4.priv) [.ext w5.epoch, .fresh w5.epoch, .zero, j4.secret]
+          (sealsOfAll [trx6, tr5, tr4, r3.2, r2.2, r1.2]) (gensOfAll [trx6, tr5, tr4, r3.2, r2.2, r1.2])
+          (.sec m.secret) :=
+  fun m hm => (external_committer_learns_nothing_earlier hist5 okx6 cx6 (j := j4) (by decide +kernel)
+    (by decide +kernel) m hm).1
+
+example : (party w5 0).map (·.secret) = some (E w5) ∧ keysOf j4.priv = [.node 714, .node 7000, .node 7001] := by
+  decide +kernel
+
+/-- somebody who only holds the GroupInfo of epoch 5 (and, say, the external PSK of the history and every node
+key of the new tree), but is neither a member nor the external committer: no epoch secret of epoch 6 -/
+example : ¬ Derivable [.node 400, .node 7000, .node 7001, .node 714] [.psk 7]
+    (sealsOfAll [trx6, tr5, tr4, r3.2, r2.2, r1.2]) (gensOfAll [trx6, tr5, tr4, r3.2, r2.2, r1.2])
+    (.sec (E wx6)) := by
+  have := (never_member_learns_no_epoch_secret histx6 (K := [.node 400, .node 7000, .node 7001, .node 714])
+    (S := [.psk 7]) (by
+      intro k hk
+      simp only [List.mem_cons, List.mem_nil_iff, or_false] at hk
+      rcases hk with rfl | rfl | rfl | rfl <;> exact ⟨_, rfl⟩) (by decide +kernel) j4 (by decide +kernel)).1
+  rwa [show j4.secret = E wx6 by decide +kernel] at this
+
+/-- the forward-secrecy theorem over a history WITH an external commit: member 1, removed in epoch 3 → 4, still
+derives nothing after the commit 4 → 5 and party 4's external commit 5 → 6 -/
+theorem later456 : Later (keysOf m1.priv) w4 [trx6, tr5] wx6 :=
+  .ext (.step (.refl w4) ok5 (by decide +kernel) c5) okx6 (by decide +kernel) cx6
+
+example : ∀ m ∈ wx6.members, w3.epoch < m.epoch →
+    ¬ Derivable (keysOf m1.priv) [m1.secret, m1.initSecret] (sealsOfAll ([trx6, tr5] ++ [tr4]))
+        (gensOfAll ([trx6, tr5] ++ [tr4])) (.sec m.secret) :=
+  fun m hm hlt => ((removed_member_forward_secrecy reach3 (rm := m1) (by decide +kernel) (by decide +kernel)
+    (by decide +kernel) ok4 (by decide +kernel) c4 later456).2.2 m hm hlt).1
+
+-- all commits of the history, the two external ones included, introduce only keys that no followed party holds
+example : ReachableF wx6 := reachFx6
 
 end MlsVerif.Props.C02Group
